@@ -13,7 +13,7 @@ PROPS = {
     "C02": {
         "level": "exploration",
         "quick": [("A", 30000)],
-        "thorough": [("A", 800000), ("C", 200000), ("D", 60000), ("E", 32)],
+        "thorough": [("A", 800000), ("C", 200000), ("D", 60000), ("E", 32), ("B", 100000)],
         "probes": ["leak_iter", "leak_drain", "leak_extract", "leak_entry", "leak_into_iter", "early_drop_drain", "early_drop_extract", "early_drop_into_iter", "small_table", "multi_group_table", "rehash_in_place", "serde_lying_hint"],
         "rule": "one evaluation = one simulated run of mixed operations in which iterators, drains, extract_ifs and entries are advanced k steps and then dropped or mem::forget-ten (cancellation faults F9/F10), with lying size hints (F13), colliding hash plans, exact-alignment-only allocator placement, element layouts 8..208 bytes and align up to 64; oracles: ledger (double drop, dead reference), red-zone canaries, quarantine poison, layout match, dump invariants I1-I4 and allocator balance after every call; non-trivial/distinct as for C01",
     },
@@ -27,14 +27,14 @@ PROPS = {
     "C04": {
         "level": "fault_enumeration",
         "quick": [("A", 8000)],
-        "thorough": [("A", 80000), ("C", 20000), ("D", 8000), ("E", 16)],
+        "thorough": [("A", 80000), ("C", 20000), ("D", 8000), ("E", 16), ("B", 10000)],
         "probes": ["panic_in_resize", "panic_in_rehash_in_place", "panic_in_clone", "panic_in_drop", "panic_in_pred", "panic_in_eq", "panic_in_hash_lookup"],
         "rule": "one evaluation = one execution of a scenario; each seeded scenario is first executed fault-free to count the callback invocations of every class inside every operation, then re-executed with the k-th invocation of one class panicking inside one target operation, for every k (thorough) or k in {1, last, 2 random} (quick); non-trivial = a fault fired or a structural event occurred; distinct = distinct signatures (operation kinds + structural events + fired fault class), k-minimum-values sketch",
     },
     "C05": {
         "level": "exploration",
         "quick": [("A", 20000)],
-        "thorough": [("A", 500000), ("C", 50000), ("D", 30000), ("E", 32)],
+        "thorough": [("A", 500000), ("C", 50000), ("D", 30000), ("E", 32), ("B", 50000)],
         "probes": ["byz_hash_answer", "byz_eq_answer", "rehash_in_place", "resize_up", "tombstone_created"],
         "rule": "one evaluation = one simulated run under a byzantine hash plan (fresh value per call / periodic flips / epoch changes) and/or a byzantine equality (random, always true, always false, asymmetric) for the whole run; only the safety subset of the oracles is active (ledger, canaries, invariants I1-I4, len()==iter().count(), per-operation callback cap as divergence verdict, everything dropped exactly once at the end); non-trivial/distinct as for C01",
     },
@@ -69,7 +69,7 @@ PROPS = {
     "C10": {
         "level": "exploration",
         "quick": [("A", 30000)],
-        "thorough": [("A", 1000000), ("D", 20000)],
+        "thorough": [("A", 1000000), ("D", 20000), ("B", 100000)],
         "probes": ["early_drop_drain", "early_drop_extract", "tombstone_created", "multi_group_table", "small_table"],
         "rule": "one evaluation = one simulated run with retain / extract_if predicates answering true on an arbitrary PRNG-drawn subset (and mutating values), extract_if and drain dropped after k steps for sampled k; oracle: predicate called exactly once per element, kept/yielded sets exact, unvisited elements stay, drain leaves an empty usable collection holding the same block; non-trivial/distinct as for C01",
     },
@@ -97,7 +97,7 @@ PROPS = {
     "C14": {
         "level": "exploration",
         "quick": [("A", 30000)],
-        "thorough": [("A", 1000000)],
+        "thorough": [("A", 1000000), ("B", 100000)],
         "probes": ["entry_at_full_load", "entry_on_singleton", "entry_tombstone_saturated", "vacant_dropped", "rehash_in_place"],
         "rule": "one evaluation = one simulated run in which method chains of length <= 3 on entry, entry_ref, raw_entry_mut (from_key, from_key_hashed_nocheck, from_hash), raw_entry and rustc_entry are applied to present and absent keys in states steered to capacity()==len(), tombstone saturation and the unallocated singleton; the observation log of each chain must equal that of the same chain on the model; non-trivial/distinct as for C01",
     },
